@@ -11,6 +11,7 @@ TRUSTED_BASE = [
 
 CRATES = {
     "sync": {},
+    "algo": {},
 }
 
 
@@ -41,5 +42,39 @@ PROPS["C28"] = {
         H("c28_commit", ["fuel_core_sync::state::State::commit"], "any valid status x any u32 height"),
         H("c28_observe", ["fuel_core_sync::state::State::observe"], "any valid status x any u32 height"),
         H("c28_failed", ["fuel_core_sync::state::State::failed_to_process"], "any valid status x any u32 range"),
+    ],
+}
+
+_CPC = "fuel_gas_price_algorithm::utils::cumulative_percentage_change"
+PROPS["C35"] = {
+    "crate": "algo",
+    "level": "model_checking",
+    "explanation": "The real estimate function is executed symbolically: totality for every input; monotonicity in the "
+                   "horizon and the compounding relation between consecutive horizons for every cell of the precomputed "
+                   "table; the integer-compounding lower bound for sampled (percentage, horizon) instances over every "
+                   "price below 2^K.",
+    "bounds": "totality: all (u64 price, u32 heights, u64 percentage) and all AlgorithmV1 parameters; monotone: price < 2^16 "
+              "(quick) / 2^20, 2^28 (thorough), percentage <= 24, horizon <= 24; table rows: all 24x25 cells; lower bound: "
+              "price < 2^12..2^16 for the listed (percentage, horizon) instances",
+    "outside": "the exp/ln branch (horizon or percentage >= 25) beyond totality: CBMC over-approximates transcendental "
+               "functions; prices >= 2^52 violate the lower bound (known finding F5); UniversalGasPriceProvider/GraphQL plumbing",
+    "assumptions": ["CBMC's bit-precise IEEE-754 model of f64 multiply/ceil/casts", "exp and ln are over-approximated by CBMC (any result)"],
+    "harnesses": [
+        H("c35_total", [_CPC], "all u64 price/percentage, all u32 heights"),
+        H("c35_worst_case_total", ["fuel_gas_price_algorithm::v1::AlgorithmV1::worst_case", "AlgorithmUpdaterV1::algorithm", _CPC],
+          "all u64 prices, u16 percentages, u32 heights"),
+        H("c35_table_rows", [_CPC], "all 24x25 table cells, price 2^40"),
+        H("c35_table_monotone_k16", [_CPC], "price < 2^16, pct <= 24, horizon < 24", tiers=("quick",), timeout={"quick": 900}),
+        H("c35_table_monotone_k20", [_CPC], "price < 2^20, pct <= 24, horizon < 24", tiers=("thorough",), timeout={"thorough": 3600}),
+        H("c35_table_monotone_k28", [_CPC], "price < 2^28, pct <= 24, horizon < 24", tiers=("thorough",), timeout={"thorough": 7200}),
+        H("c35_lower_k12_p1_b1", [_CPC], "price < 2^12, 1 percent, 1 block"),
+        H("c35_lower_k12_p13_b2", [_CPC], "price < 2^12, 13 percent, 2 blocks"),
+        H("c35_lower_k12_p24_b8", [_CPC], "price < 2^12, 24 percent, 8 blocks"),
+        H("c35_lower_k12_p7_b24", [_CPC], "price < 2^12, 7 percent, 24 blocks"),
+        H("c35_lower_k16_p13_b2", [_CPC], "price < 2^16, 13 percent, 2 blocks", tiers=("thorough",)),
+        H("c35_lower_k16_p24_b4", [_CPC], "price < 2^16, 24 percent, 4 blocks", tiers=("thorough",)),
+        H("c35_lower_k16_p3_b12", [_CPC], "price < 2^16, 3 percent, 12 blocks", tiers=("thorough",)),
+        H("c35_lower_k14_p24_b24", [_CPC], "price < 2^14, 24 percent, 24 blocks", tiers=("thorough",)),
+        H("c35_lower_above_2p52", [_CPC], "2^52 <= price < 2^60, 13 percent, 2 blocks (region of known finding F5 only)"),
     ],
 }
